@@ -50,17 +50,26 @@ class RecGSC:
         self.where = []
         self.symbolic = False
         self.monotone = True
+        self.inner = None  # a real (shipped) condition to pass through, or None for a symbolic verdict
+        self.max_consultations = None
 
     def __call__(self, tree):
         if not self.symbolic:
             return False
         P = self.P
         k = len(self.verdicts)
+        if self.max_consultations is not None and k >= self.max_consultations:
+            P.cut(f"more than {self.max_consultations} consultations of the global stop condition")
+        for h in self.hooks:
+            h(tree, k)
+        if self.inner is not None:
+            b = bool(self.inner(tree))
+            self.verdicts.append(b)
+            self.where.append(getattr(tree, "_verif_running", None))
+            return b
         v = P.bool(f"gsc#{k}")
         if self.monotone and self.verdicts:
             P.assume(implies(self.verdicts[-1], v))
-        for h in self.hooks:
-            h(tree, k)
         b = bool(v)  # decide here: every caller truth-tests the verdict anyway
         self.verdicts.append(b)
         self.where.append(getattr(tree, "_verif_running", None))
@@ -140,7 +149,7 @@ class World:
 
 
 def build(P, kinds, shape, L=2, hibernation=False, generations=2, maximize=False, mech="stub", warm=1, seed=1, d=2,
-          deme_filters="limit1"):
+          deme_filters="limit1", pop=4):
     """Build a tree with the real constructors.  shape: per non-root level, the list of parent indices (into the level
     above) of the demes to create there, e.g. [[0, 0], [1]] = two children of the root, one grandchild under the second."""
     from pyhms.config import TreeConfig
@@ -162,7 +171,7 @@ def build(P, kinds, shape, L=2, hibernation=False, generations=2, maximize=False
     bounds = np.array([[-2.0, 2.0]] * d)
     w.bounds = bounds
     w.problems = [FunctionProblem(w.log.wrap(i), bounds, maximize) for i in range(len(kinds))]
-    levels = [level_config(k, w.problems[i], w.lscs[i], generations) for i, k in enumerate(kinds)]
+    levels = [level_config(k, w.problems[i], w.lscs[i], generations, pop) for i, k in enumerate(kinds)]
     w.generator = None
     if mech == "stub":
         w.generator = StubGenerator()
@@ -171,6 +180,8 @@ def build(P, kinds, shape, L=2, hibernation=False, generations=2, maximize=False
         mechanism = SproutMechanism(w.generator, dfs, [sf.LevelLimit(L)])
     elif mech == "simple":
         mechanism = get_simple_sprout(0.05, level_limit=L)
+    elif mech == "nbc-default":
+        mechanism = get_NBC_sprout(level_limit=L)
     else:
         mechanism = get_NBC_sprout(gen_dist_factor=1.0, trunc_factor=1.0, fil_dist_factor=0.1, level_limit=L)
     w.L = L
@@ -243,7 +254,7 @@ def instrument(w, deme):
             return orig_tell(genomes, values, *a, **k)
 
         def stop(*a, _deme=deme, **k):
-            if not w.gsc.symbolic:
+            if not w.gsc.symbolic or not getattr(w, "sym_cma_stop", True):
                 return orig_stop(*a, **k)
             n = getattr(_deme, "_verif_stops", 0)
             _deme._verif_stops = n + 1
